@@ -86,6 +86,12 @@ CLAIMED = {
         "Partial by nature: NaN/inf are float notions, established only on sampled runs by the always-on search (k-means, GMM ML all switches, GMM MAP, k-means-initialised GMM, i-vector). Zero-weight components rely on IEEE log 0 = -inf and are excluded from the theorems. Found and fixed D2.",
         "§6 C13",
     ),
+    "C19": (
+        "Lean 4 theorems about an effect-summary model of the heap (frame: caller cells unchanged along any disciplined call sequence; no-alias: nothing an estimator holds or returns is a caller cell; reuse) + the decidable discipline executed on the effects observed for the real entry points (bitwise snapshots, np.shares_memory, overwrite-after test)",
+        "Proof for every sequence of calls obeying the discipline. Tie: random call sequences over fit / fit_using_array / enroll / score / transform / project / acc_stats / linear_scoring / + / += / WCCN / whitening, NumPy and Dask, reusing the same caller objects; the model's discipline checker runs on the observed write/hold sets, and repeated calls are compared.",
+        "The theorem is about effect summaries; that the code obeys them is observation on sampled call sequences (partial by nature). References kept by design (ubm, k_means_trainer, init_method) are not counted as aliasing. Found and fixed D15.",
+        "§6 C19",
+    ),
 }
 
 NOT_YET = "check not built yet in this round (see DESIGN.md §8 order of work); not claimed"
